@@ -888,7 +888,9 @@ func c16JudgeOracle(args, real, drv json.RawMessage) *core.Verdict {
 			if out.Err == nil {
 				return core.Fail("failing-file-accepted:"+*spec.Err+":"+via, "the specification says the load fails ("+*spec.Err+": a required env file / a label file is missing, or a line of a file fails) but the result is a project")
 			}
-			if *out.Err != *spec.Err {
+			// at the second call site the label files are read before the env files (`second_call_site_fails_iff`: it fails
+			// iff the loader's own resolution fails, possibly with the error of the other phase)
+			if *out.Err != *spec.Err && via != "load_methods" {
 				return core.Fail("failing-file-error-class:"+via+":"+*spec.Err+"/"+*out.Err, "the load must fail as "+*spec.Err+" (first failing file) but fails as "+*out.Err)
 			}
 			continue
